@@ -130,6 +130,45 @@ def recycled_buffer_probe(helper, mode):
     return simnet.run(go)
 
 
+def neighbour_answer_probe(request_id):
+    """Two plaintext sessions in one process. The device of session A pings it, and A's transport refuses the answer (the write
+    raises, A closes). Then the device of session B sends a request (ping 7 / time 36 / disconnect 5): B's answer is exactly the
+    matching response, in one write, nothing else. Returns (frames B wrote as (id, length), problem or None)."""
+    import asyncio
+    from vlib import simnet
+
+    async def go(loop):
+        net = simnet.Net(loop)
+        with net.patched():
+            cli_a, tr_a = await simnet.connected_client(loop, net)
+            cli_b, tr_b = await simnet.connected_client(loop, net)
+            tr_a.write_raises = BrokenPipeError(32, "broken pipe")
+            tr_a.feed(simnet.plain_frame(7))
+            await simnet.drain(loop)
+            n_w = len(tr_b.writes)
+            tr_b.feed(simnet.plain_frame(request_id))
+            await simnet.drain(loop)
+            new = [d for _, d in tr_b.writes[n_w:]]
+            try:
+                frames = [(t, len(pl)) for d in new for t, pl in simnet.decode_plain_stream(d)]
+            except (ValueError, IndexError) as e:
+                frames = None
+                problem = f"what session B wrote does not decode ({e})"
+            else:
+                want = {7: 8, 36: 37, 5: 6}[request_id]
+                problem = None
+                if len(new) != 1 or [t for t, _ in frames] != [want]:
+                    problem = f"session B wrote {len(new)} time(s), frames {frames}; expected one frame with id {want}"
+            for c in (cli_a, cli_b):
+                try:
+                    await c.disconnect(force=True)
+                except Exception:  # noqa: BLE001
+                    pass
+            await simnet.drain(loop)
+        return frames, problem
+    return simnet.run(go)
+
+
 def run(rep, tier, seed):
     connfamily.run(rep, tier, seed, "C12", VFILE, RULE)
     for helper in ("plaintext", "noise"):
@@ -140,6 +179,13 @@ def run(rep, tier, seed):
             i, seen, want, wrote, state = bad[0]
             rep.violation("C12/deliveries", f"{helper} connection, one subscriber per declared message class: a frame with id {i} reached {seen}, api.proto says {want} "
                           f"({wrote} frame(s) written in response, state {state}); {len(bad)} id(s) deviate", {"kind": "dispatch-by-declared-id", "helper": helper})
+    for rid in (7, 36, 5):
+        frames, problem = neighbour_answer_probe(rid)
+        rep.case(("neighbour-answer", rid), True, sample={"neighbour_answer": rid, "frames_written": frames})
+        rep.bump("probe:neighbour-answer")
+        if problem:
+            rep.violation("C12/peer-request-answer", f"two sessions in one process; A's answer to a ping was refused by its transport (A closed); then B's device sent request id {rid}: {problem}",
+                          {"kind": "neighbour-answer", "request": rid})
     for helper in ("plaintext", "noise"):
         for mode in (1, 2):
             bad, n = recycled_buffer_probe(helper, mode)
@@ -161,6 +207,12 @@ def replay(path):
         common.setup_impl_path()
         print(dispatch_by_declared_id(d["helper"]))
         return 0
+    if d.get("kind") == "neighbour-answer":
+        from vlib import common
+        common.setup_impl_path()
+        frames, problem = neighbour_answer_probe(d["request"])
+        print(frames, problem)
+        return 1 if problem else 0
     if d.get("kind") == "recycled-buffer":
         from vlib import common
         common.setup_impl_path()
